@@ -9,7 +9,7 @@ import sys
 
 VERIF = os.path.dirname(os.path.dirname(os.path.abspath(__file__)))
 REPO = os.environ.get("VERIF_REPO", "/repo")
-BUILD = os.path.join(VERIF, "build")
+BUILD = os.environ.get("VERIF_BUILD") or os.path.join(VERIF, "build")
 MIRROR = os.path.join(BUILD, "mirror")
 OBJ = os.path.join(BUILD, "obj")
 BIN = OBJ
